@@ -459,5 +459,12 @@ static void trigger_with_checksum(char *out, size_t len, const char *body)
         snprintf(out, len, "%s[%04lX]", body, 0xFFFF - sum);
 }
 
+/* Cache pages are allocated with exactly the size their content needs and read through a union: a read of a member the
+ * allocation does not hold lands several hundred bytes behind the block, beyond ASan's default red zone and possibly inside
+ * the page cached next.  1 KiB red zones keep such reads visible; the quarantine is counted in user bytes, so it is kept
+ * small (2 MiB of user bytes are still more than a thousand freed cache pages) or 16 workers with 2 KiB per 40 byte
+ * block run the machine out of memory.  bin/check's ASAN_OPTIONS are applied on top. */
+const char *__asan_default_options(void) { return "redzone=1024:quarantine_size_mb=2"; }
+
 #include "C01_alphabet.h"
 #include "C01_phases.h"
